@@ -2,5 +2,5 @@ SPECIFICATION Spec
 CONSTANTS
   Mrp = {m1, m2, m3}
   Atomic = TRUE
-  InspectorCleansUp = FALSE
+  InspectorCleansUp = TRUE
 INVARIANTS OneWriter HolderHasFile
